@@ -99,9 +99,13 @@ fn parse_witnesses() -> Vec<(&'static str, &'static str, Vec<u8>, String)> {
             format!("re:{}:{}:{}:{};c:{}:{}:{}:{}:{}:{}", bits(7.0), bits(8.0), bits(1.0), bits(1.0), bits(7.0), bits(8.0), bits(5.0), bits(5.0), bits(6.0), bits(7.0))),
         ("inline image whose data ends with LF", "inline-image:data-with-LF", b"q BI /W 2 /H 1 /BPC 8 /CS /G ID x\n\nEI Q\n".to_vec(), format!("q;{};Q", img(2, 1, b'x'))),
         ("inline image whose data contains LF E", "inline-image:data-with-LF", b"q BI /W 3 /H 1 /BPC 8 /CS /G ID x\nE\nEI Q\n".to_vec(), format!("q;{};Q", img(3, 1, b'x'))),
-        // open finding: the reader only accepts EI after a line feed
+        // formerly the open finding inline-image:EI-not-after-LF (the reader only accepted EI after a line feed)
         ("inline image with EI after a space", "inline-image:EI-not-after-LF", b"q BI /W 1 /H 1 /BPC 8 /CS /G ID A EI Q\n".to_vec(), format!("q;{};Q", img(1, 1, b'A'))),
         ("inline image with EI after CR", "inline-image:EI-not-after-LF", b"q BI /W 1 /H 1 /BPC 8 /CS /G ID A\rEI Q\n".to_vec(), format!("q;{};Q", img(1, 1, b'A'))),
+        ("two inline images with EI after a space: the first does not swallow the second", "inline-image:EI-not-after-LF",
+            b"BI /W 1 /H 1 /BPC 8 /CS /G ID A EI q BI /W 1 /H 1 /BPC 8 /CS /G ID B\nEI Q\n".to_vec(), format!("{};q;{};Q", img(1, 1, b'A'), img(1, 1, b'B'))),
+        ("EI inside a longer word is image data", "inline-image:EI-in-word", b"BI /W 5 /H 1 /BPC 8 /CS /G ID A EIy\nEI Q\n".to_vec(), format!("{};Q", img(5, 1, b'A'))),
+        ("EI at the very end of the data", "inline-image:EI-at-end", b"q BI /W 1 /H 1 /BPC 8 /CS /G ID A EI".to_vec(), format!("q;{}", img(1, 1, b'A'))),
     ]
 }
 
@@ -362,7 +366,18 @@ fn law_failures(x: f32) -> Option<String> {
     if s.contains('e') || s.contains('E') {
         return Some(format!("{{}} printed an exponent: {}", s));
     }
+    // FmtLaws: the text is `-?digits` or `-?digits.digits`, nothing else
+    let body = s.strip_prefix('-').unwrap_or(&s);
+    let shape_ok = !body.is_empty() && body.bytes().all(|b| b.is_ascii_digit() || b == b'.') && body.matches('.').count() <= 1
+        && body.bytes().any(|b| b.is_ascii_digit());
+    if !shape_ok {
+        return Some(format!("{{}} printed something that is not [-]digits[.digits]: {}", s));
+    }
     if !s.contains('.') {
+        // FmtLaws.integral: with a `.` appended the text is a real token that converts back to the same value
+        if format!("{}.", s).parse::<f32>().ok().map(|y| y.to_bits()) != Some(x.to_bits()) {
+            return Some(format!("{}. does not read back to the same bits", s));
+        }
         // integral: the digits either fit an i32 and convert back to an == value, or the value is `big`
         match s.parse::<i32>() {
             Ok(n) => {
@@ -383,8 +398,11 @@ fn law_failures(x: f32) -> Option<String> {
         if x.fract() == 0.0 {
             return Some(format!("integral value printed with a fraction: {}", s));
         }
-        if s.parse::<f32>().ok() != Some(x) {
-            return Some(format!("{} does not read back", s));
+        if s.parse::<f32>().ok().map(|y| y.to_bits()) != Some(x.to_bits()) {
+            return Some(format!("{} does not read back to the same bits", s));
+        }
+        if big {
+            return Some("a value with a fraction satisfies the test of struct Real".into());
         }
     }
     None
@@ -468,6 +486,10 @@ pub fn run(driver: &Driver, seed: u64, thorough: bool, replay: Option<&serde_jso
     rep.streams.push(stream_kw(driver, &ctx, seed, if t { 100 } else { 5 }, true));
     rep.streams.push(stream_spec(driver, seed, if t { 100 } else { 6 }));
     rep.streams.push(stream_inline(driver, &ctx, seed, if t { 200_000 } else { 3000 }));
+    rep.streams.push(stream_bser(driver, &ctx, seed, if t { 100_000 } else { 2500 }, false));
+    rep.streams.push(stream_bser(driver, &ctx, seed, if t { 10_000 } else { 300 }, true));
+    rep.streams.push(stream_bparse(driver, &ctx, seed, if t { 100_000 } else { 2000 }, false));
+    rep.streams.push(stream_bparse(driver, &ctx, seed, if t { 30_000 } else { 600 }, true));
     rep.oracles.push(oracle_roundtrip(&ctx, seed, 0, if t { 300_000 } else { 4000 }, true));
     rep.oracles.push(oracle_table(&ctx, seed, if t { 300 } else { 8 }, 0, if t { 100_000 } else { 2000 }, false));
     rep.oracles.push(oracle_leak(&ctx, seed, 0, if t { 100_000 } else { 2000 }));
